@@ -12,8 +12,9 @@ MANIFEST = {
                  "composed with the theorems of C09 (sample-table queries = naive expansion) and C05 (fragment add-history -> "
                  "encode -> decode -> GetFullSamples round trip), both imported read-only; differential correspondence "
                  "(extracted OCaml vs the Go functions through a tagged test driver and vs the built tools, incl. the decoded "
-                 "segments the built segmenter writes in its four modes); failing-input search running the built tools on "
-                 "synthesized (and truncated) files",
+                 "segments the built segmenter writes in its four modes, combine-segs through a tagged driver on k files / any ids "
+                 "and as built tool, the init segments all three tools write); failing-input search running the built tools on "
+                 "synthesized (and truncated) files, outputs decoded against their OWN init segments",
     "level_text": "Theorems (coq/c11/C11Theorems.v), for all inputs. Segmenter (text after fixes 34ef7ec, 8eb6c19): for every file, "
                   "track and target duration, whenever the tool gets to writing, the per-track sample intervals tile 1..N "
                   "(pinned text refuted) and all tracks get the same number >= 1 of intervals; the reference track's segments "
@@ -44,13 +45,32 @@ MANIFEST = {
                   "C11_write_segment_total), so does the multiplexed writer without trun optimisation, as the tool runs it "
                   "(C11_segmenter_mux_total; C11_plan_ordered), Resegment / Fragmentify DO write every piece - Resegment's possibly empty first "
                   "segment included, as the tool runs it without trun optimisation - and the decoded pieces concatenate to "
-                  "the input (C11_resegment_total, C11_resegment_total_all, C11_write_segment_empty, C11_fragmentify_total). combine-segs: reading each track back from the multi-track fragment returns its "
-                  "input list, and reading with trex = nil equals reading with the trex exactly when no field relies on trex "
-                  "defaults. Only explored by correspondence/search, not proved: the byte-level box codecs of moof/mdat/styp and "
+                  "the input (C11_resegment_total, C11_resegment_total_all, C11_write_segment_empty, C11_fragmentify_total). combine-segs end to end at the decoded level "
+                  "(C11_combine_end_to_end, total: hypotheses on the input only): k >= 1 decoded single-track media files (what "
+                  "the tool accepts: one segment / fragment / traf; any number of truns, any trun / tfhd flag usage, any "
+                  "base-data-offset mode), pairwise different output ids, sizes uint32 / tfdt uint64, readable with their init, below "
+                  "2 GiB, and the guard of the property text as a boolean predicate no_trex_reliance (proved EXACT: "
+                  "C11_combine_guard_exact): combineMediaSegments + Encode DO return and every track read from the decoded output "
+                  "with the combined init's trex (any defaults) equals what a reader of input i saw: bytes, size, duration, flags, "
+                  "composition offset, decode time; C05's hypotheses (Size = len(Data), consistent decode times) are PROVED of "
+                  "every decoded input (C11_combine_read_hyps); without the guard refuted (C11_combine_unguarded_refuted, "
+                  "replayed on the built tool: search class comb:outside-guard:differs). Init segments (C11InitModel: per "
+                  "track id, handler, media timescale, sample entries, trex): whenever the segmenter writes, every init (one per "
+                  "track, text after fix 0e3bed8) resp. the multiplexed init carries handler, timescale and ONE sample entry of its "
+                  "input track under the id the media segments use, with a trex for it (C11_segmenter_inits_never_drop, "
+                  "C11_segmenter_inits_total, C11_segmenter_mux_init_same_tracks; pinned text refuted: "
+                  "C11_segmenter_init_entry_dropped_refuted); the resegmenter passes the init through; combineInitSegments "
+                  "(C11_combine_init_same_tracks, total) holds under id ids[i] the handler, timescale, sample entries and trex "
+                  "defaults of input i. TOTAL forms WITH trun optimisation: one multi-track segment, EncOptimize on or off, any "
+                  "tracks (also all) without a sample, is written and every track reads back what was added "
+                  "(C11_mux_segment_total_opt, C11_mux_segment_empty), the multiplexed writer over all segments with optimisation "
+                  "and empty intervals (C11_segmenter_mux_total_opt); an empty single-track fragment cannot be encoded with "
+                  "optimisation (C11_write_segment_empty_opt_fails). Only explored by correspondence/search, not proved: the byte-level box codecs of moof/mdat/styp and "
                   "DecodeFile's regrouping of a box stream into segments and fragments (C05 proves the tfhd/trun codecs and is "
-                  "adding the segment level); the multiplexed writer's total form WITH trun optimisation (the tool does "
-                  "not use it; the conditional end-to-end theorem covers it); init segments (stsd copy, trex); a track carrying both stco and co64 in the "
-                  "-lazy writer; combine-segs at the decoded level.",
+                  "adding the segment level); a track carrying both stco and co64 in the -lazy writer; of the init segments everything but (id, handler, "
+                  "timescale, sample entries as opaque bytes, trex): ftyp, mvhd, tkhd fields, language, edit lists, mehd (combine-segs "
+                  "adds a second mehd), the sample entries' contents (C19's territory); combine-segs' input files are modelled from "
+                  "DecodeFile's result on (C05 owns the byte codecs).",
     "level_note": "Trusted: Coq kernel, extraction (ExtrOcamlBasic), the OCaml/Go glue, the file synthesizer and reader in the "
                   "harness (they use mp4ff's own box encoders/decoders and GetFullSamples). The models are hand transcriptions "
                   "tied to the code by differential runs on generated inputs only; C11FetchModel runs on C09Model's table "
@@ -59,7 +79,9 @@ MANIFEST = {
                   "queries of the two models are PROVED equal on consistent tables (C11_itrack_decode_time, C11_itrack_cto, "
                   "C11_itrack_sample_nr_at_time) and the composition is exercised by the W correspondence. uint64 time accumulators are not wrapped in C11Model (assumption: total "
                   "duration < 2^63 ticks; C09Spec.consistent implies it for the fetch). The writers are modelled per track "
-                  "(the tool interleaves tracks and stops at the first error of any track).",
+                  "(the tool interleaves tracks and stops at the first error of any track). C11CombModel runs on C05FragModel.dfrag "
+                  "(decoded fragments) and C11InitModel on track records; both are tied to the code by the C / I / X correspondence "
+                  "lines (tagged driver in /repo/examples/combine-segs for any k and ids, built tools otherwise).",
 }
 
 
@@ -106,6 +128,10 @@ def run(ctx):
         "(copyMediaData, the bodies of makeSingleTrackSegments / makeSingleTrackSegmentsLazyWrite / makeMultiTrackSegments) "
         "on top of coq/c09/C09Model.v (table structs and queries) and coq/c05/C05Model.v + C05FragModel.v (fragment "
         "operations, Encode, decoded view, GetFullSamples), both imported read-only; spec: coq/c11/C11Spec.v over C09Spec.v",
+        "model: coq/c11/C11CombModel.v is a hand transcription of examples/combine-segs/main.go combineMediaSegments + writeSeg "
+        "on C05FragModel (decoded fragments in, CreateMultiTrackFragment / AddFullSampleToTrack / Encode out); "
+        "coq/c11/C11InitModel.v of segmenter.go MakeInitSegments / MakeMuxedInitSegment (text after fix 0e3bed8), the "
+        "resegmenter's pass-through and combine-segs' combineInitSegments on (id, handler, timescale, sample entries, trex) records",
         "harness/c11: synthesizer of progressive/fragmented files and reader of produced segments (mp4ff's own "
         "encoders, decoders and Fragment.GetFullSamples are used to write inputs and read outputs)",
     ]
@@ -116,7 +142,9 @@ def run(ctx):
         "the file (data_ok), every written fragment below 2 GiB (seg_guard / lazy_guard: int32 trun data offsets, C05-F5), "
         "fewer than 2^32 samples; -lazy writer: one chunk-offset box per track; Resegment/Fragmentify decoded output: "
         "contiguous decode times that fit uint64",
-        "combine-segs: inputs do not rely on trex defaults (limitation documented in its source)",
+        "combine-segs: inputs do not rely on trex defaults (limitation documented in its source; boolean guard "
+        "no_trex_reliance, exact), one segment / fragment / traf per input file, pairwise different output ids, whole input below "
+        "2 GiB; init theorems: the first trex of every input init names its only trak",
     ]
     os.makedirs(TMP, exist_ok=True)
     exe, drv, bins, model = build(ctx)
@@ -236,7 +264,17 @@ def run(ctx):
                        "model_says": mism[0][:3000]},
                       "model/implementation disagree on %d cases" % len(mism), no_input=True)
     ctx.proof_violation_if_broken(pr, "c11 search: %d evaluations, no failing input" % ctx.notes.get("search_evaluations", 0))
-    ctx.cov["rule"] = ("corr G: per-sample fetch through the tagged driver (GetFullSamplesForInterval, GetSamplesForInterval, "
+    ctx.cov["rule"] = ("corr C: combine-segs at the decoded level through the tagged driver (k = 1-4 files, ids distinct / duplicate / "
+                       "too few / too many; inputs with 1-6 truns, per-sample fields vs tfhd defaults vs first-sample-flags vs values "
+                       "LIFTED TO THE TREX (outside the guard), 4 base-data-offset modes, styp or not, no sample; negative: two "
+                       "fragments, two segments, a second traf) and through the built tool (k = 2): the model gets DecodeFile's "
+                       "view of every input and must reproduce the class and every track read from the output with the combined "
+                       "init's trex, the reference reading of every input, and - when the hypotheses of C11_combine_end_to_end hold - "
+                       "output = input; corr I: init segments of the built segmenter (single / -m; sample entries avc1, avc3, hvc1, "
+                       "hev1, av01, mp4a, ac-3, ec-3, enca, two entries), resegmenter and combine-segs (driver + tool) vs C11InitModel; "
+                       "corr X: CreateMultiTrackFragment + AddFullSampleToTrack per track + Encode with / without OptimizeTrun, 1-3 "
+                       "tracks, tracks (also all) without samples, read back with an adversarial trex; "
+                       "corr G: per-sample fetch through the tagged driver (GetFullSamplesForInterval, GetSamplesForInterval, "
                        "copyMediaData, TranslateSampleFlagsForFragment on Go structs set from text): %d consistent table sets (1-14 "
                        "samples, stts runs incl. zero-count entries, ctts runs incl. zero-count, explicit/uniform sizes incl. 0, 1-n "
                        "chunks in file order or shuffled with gaps, stco/co64, stss, sdtp; mdat in memory / lazy) x 3 intervals, the "
@@ -264,7 +302,10 @@ def run(ctx):
                        "decode time, decode-time gaps in 1/12); combine-segs tool on pairs of single-fragment inputs; oracle = "
                        "concatenated per-track (bytes,dur,flags,cto,dts) of all outputs equals the input's + first video sample "
                        "of each segment is sync; truncated inputs (end of the mdat missing) in all modes: the tool has to refuse "
-                       "them or conserve every sample" % (n // 3, n // 3, n, n, nt))
+                       "them or conserve every sample; every output is decoded against its OWN init segment, which must describe "
+                       "the track like the input (handler, timescale, sample entry, trex: init-differs / init-without-sample-entry); "
+                       "segmenter on inputs with other sample entries (seginit); fragmented inputs whose common values live in the "
+                       "trex (defaults=3) for resegmenter / Fragmentify; combine-segs outside its guard (outcome only)" % (n // 3, n // 3, n, n, nt))
     shutil.rmtree(TMP, ignore_errors=True)
 
 
